@@ -55,9 +55,9 @@ Definition ex_hist_seeded : list op := [
 Definition ex_hist_open : list op := [
   ONew 1%N 10%N SLww [] 0;
   OAppend 0 1%N 1 101%N; OAppend 0 2%N 1 102%N; OAppend 0 3%N 1 103%N;
-  OOpen 0 [103; 102; 999]%N 1%N 20%N SLww [];
+  OOpen 0 [103; 102; 999]%N [] 1%N 20%N SLww [];
   OAppend 1 4%N 2 201%N;
-  OOpen 0 [101; 102; 103; 102]%N 1%N 30%N SLww [];
+  OOpen 0 [101; 102; 103; 102]%N [103]%N 1%N 30%N SLww [];
   OJoin 1 0 (-1);
   OJoin 0 1 2;
   OAppend 2 5%N 1 301%N ].
